@@ -470,11 +470,32 @@ def fail(kind, what, **kw):
     return {"detail": dict(what=what, **kw), "signature": {"kind": kind, "what": what}}
 
 
+def valid(c):
+    """is the case inside the property's quantifier (positive sizes, matching input, non-empty conv output)?"""
+    k = c["kind"]
+    if c["B"] <= 0:
+        return False
+    if k == "dense":
+        ins, outs = c["inshape"], c["outshape"]
+        return (all(v > 0 for v in ins + outs) and c["xshape"][0] == c["B"] and prod(c["xshape"][1:]) == prod(ins))
+    if k == "direct":
+        return all(v > 0 for v in c["shape"]) and c["xshape"][0] == c["B"] and prod(c["xshape"][1:]) == prod(c["shape"])
+    if k == "lateral":
+        return all(v > 0 for v in c["shape"])
+    if min(c["H"], c["W"], c["C"], c["F"], *c["k"], *c["s"], *c["d"]) <= 0 or min(c["p"]) < 0:
+        return False
+    ho = out_size(c["H"], c["p"][0], c["d"][0], c["k"][0], c["s"][0])
+    wo = out_size(c["W"], c["p"][1], c["d"][1], c["k"][1], c["s"][1])
+    return ho >= 1 and wo >= 1 and c["xshape"] == [c["B"], c["C"], c["H"], c["W"]]
+
+
 def oracle(c, im):
     """None, or {detail, signature}.  Independent of the Coq model: plain sums with math.fsum over the implementation's
     own weight / current read-backs."""
     if im.get("ok") != 1:
-        return None        # error paths are judged by the correspondence, not by the property
+        if im.get("ok") == 0 and valid(c):
+            return fail(c["kind"], "raised on a valid configuration", stage=im.get("stage"), msg=im.get("msg"))
+        return None        # genuine error paths are judged by the correspondence, not by the property
     k = c["kind"]
     if k in ("dense", "direct"):
         ins = c["inshape"] if k == "dense" else c["shape"]
